@@ -8,9 +8,10 @@ export RUSTUP_TOOLCHAIN=stable-x86_64-unknown-linux-gnu CARGO_NET_OFFLINE=true
 cd "$WT" || exit 2
 git checkout -q -- . && git clean -qfd -e target
 crate=$(python3 -c "import json,re,sys; m=json.load(open('$D/meta.json')); c=re.search(r'-p\s+(\S+)', m.get('demo_cmd','')); print(c.group(1) if c else 'crux_core')")
+feat=$(python3 -c "import json,re; m=json.load(open('$D/meta.json')); c=re.search(r'--features[= ]+(\S+)', m.get('demo_cmd','')); print('--features '+c.group(1) if c else '')")
 demo=$(ls "$D"/demo/*.rs | head -1); name=$(basename "$demo" .rs)
 mkdir -p "$crate/tests"; cp "$demo" "$crate/tests/$name.rs"
-run_demo() { cargo nextest run -p "$crate" --test "$name" --offline --no-fail-fast 2>&1 | grep -E "Summary|error(\[|:)" | head -3; }
+run_demo() { cargo nextest run -p "$crate" $feat --test "$name" --offline --no-fail-fast 2>&1 | grep -E "Summary|error(\[|:)" | head -3; }
 echo "== demo WITHOUT patch"; run_demo
 git apply "$D/patch.diff" || { echo "PATCH DOES NOT APPLY"; exit 1; }
 echo "== demo WITH patch"; run_demo
